@@ -576,6 +576,20 @@ func (d *Driver) OpFaulted() {
 	d.C.Obs("op_with_injected_load_fault", 1)
 	if err == nil {
 		apply()
+		if hit {
+			// the operation swallowed the fault and reported success: whatever it
+			// left behind is a version like any other - persist it for the monitors
+			// of persisted versions before the model comparison gets a say
+			d.C.Obs("op_absorbed_injected_fault", 1)
+			if d.ID == "C09" {
+				func() {
+					defer func() { recover() }()
+					if root, perr := d.T.MakeRoot(d.E.Ctx); perr == nil && d.OnRoot != nil {
+						d.OnRoot(d, root)
+					}
+				}()
+			}
+		}
 		return
 	}
 	if !hit {
